@@ -31,6 +31,9 @@ type C02Scenario struct {
 	// uid - handlers built by a factory), so Unsubscribe(f) has several candidates and must remove exactly one,
 	// and a fired Once registration must be retired itself, not a sibling. Sub ops carry their uid in ID.
 	Twins bool `json:"twins,omitempty"`
+	// ViaAny: publishes whose id is divisible by 3 go through an interface-typed value (Publish[any]): the same
+	// event, dispatched on its dynamic type - registry bookkeeping keyed by the static type parameter misses it
+	ViaAny bool `json:"via_any,omitempty"`
 }
 
 type c02OpRec struct {
@@ -75,6 +78,7 @@ func genC02Twins(rt *rapid.T) core.Scenario {
 	}
 	sc.Yields = rapid.IntRange(0, 2).Draw(rt, "yields")
 	sc.ShareOpts = rapid.IntRange(0, 2).Draw(rt, "shareOpts") == 2
+	sc.ViaAny = rapid.IntRange(0, 2).Draw(rt, "viaAny") == 2
 	sc.Tape = core.DrawTape(rt, 400)
 	return sc
 }
@@ -177,6 +181,7 @@ func genC02(rt *rapid.T) core.Scenario {
 	}
 	sc.Yields = rapid.IntRange(0, 2).Draw(rt, "yields")
 	sc.ShareOpts = rapid.IntRange(0, 2).Draw(rt, "shareOpts") == 2
+	sc.ViaAny = rapid.IntRange(0, 2).Draw(rt, "viaAny") == 2
 	sc.Tape = core.DrawTape(rt, 400)
 	return sc
 }
@@ -213,7 +218,11 @@ func (sc *C02Scenario) Execute(t *testing.T) *core.Outcome {
 		case "clearall":
 			clearAll(w)
 		case "pub":
-			allTypes[op.Type].Pub(w, context.Background(), op.ID)
+			if sc.ViaAny && op.ID%3 == 0 {
+				allTypes[op.Type].PubAny(w, context.Background(), op.ID)
+			} else {
+				allTypes[op.Type].Pub(w, context.Background(), op.ID)
+			}
 		}
 		x := ""
 		if r.Err {
